@@ -7,7 +7,6 @@ import (
 	"github.com/jig/lisp"
 	"github.com/jig/lisp/env"
 	"github.com/jig/lisp/lib/call"
-	"github.com/jig/lisp/lib/core/nscore"
 	. "github.com/jig/lisp/types"
 	"verif.example/h/lib"
 	"verif.example/h/ref"
@@ -22,10 +21,7 @@ var (
 func trace_BANG(v MalType) (MalType, error) { Trace = append(Trace, v); return v, nil }
 
 func Setup() {
-	Base = env.NewEnv()
-	if err := nscore.Load(Base); err != nil {
-		panic(err)
-	}
+	Base = lib.StdEnv()
 	call.CallOverrideFN(Base, "trace!", trace_BANG)
 	ref.EqFn = lib.RefEq
 }
